@@ -8,7 +8,7 @@ from . import common, pipeline, ensemble
 from .common import Corr
 
 ID = "C01"
-LEAN_MODULES = ["TempestVerif.Props.C01", "TempestVerif.Props.C03"]   # C03: the kernel the pipeline takes from the tape
+LEAN_MODULES = ["TempestVerif.Props.C01", "TempestVerif.Props.C03", "TempestVerif.Props.C06"]   # C03: the kernel the pipeline takes from the tape
 RULE = ("whole-pipeline trace replay: real Sampler runs (kernel x resampler, clustering off, ESS mode, with and without a "
         "zero-likelihood prior region, 1-3 dimensions) are recorded with all randomness observed (prior draws, resampling "
         "uniforms, proposals with their log-likelihoods and Hastings factors, Metropolis uniforms); the Lean pipeline model "
@@ -34,12 +34,14 @@ def translators():
 def make_target(rng, d, with_hole):
     mu = np.array([rng.uniform(-1.5, 1.5) for _ in range(d)])
     s2 = rng.uniform(0.3, 1.5)
+    # one target in six is very narrow relative to the prior: the first positive temperature is then far below 1e-4
+    half = 500.0 if rng.random() < 1 / 6 else 4.0
 
     def prior(u):
-        return 8.0 * u - 4.0
+        return 2.0 * half * u - half
 
     def like(x):
-        if with_hole and x[0] < -2.0:
+        if with_hole and x[0] < -0.5 * half:
             return -np.inf
         return -0.5 * float(np.sum((x - mu) ** 2)) / s2
     return prior, like
@@ -95,11 +97,16 @@ def correspond(tier):
 def _dependency_suites(tier):
     """the part of the pipeline the trace replay takes from the tape — proposal generation and its precomputed statistics — is
     C03's model; its correspondence suites are re-run here so that a broken kernel also breaks THIS property's obligations"""
-    from . import c03
+    from . import c03, c06
     out = c03.correspond(tier)
     for s_ in out:
         s_.name = "dep:C03:" + s_.name
-    return out
+    # the trace replay runs with clustering off; the resampling step as the pipeline uses it WITH clustering (gather of the
+    # drawn indices, labels of the resampled particles) is C06's `Resampler.run` suite against its model `resamplerRun`
+    drv = common.Driver()
+    r = c06._resampler_suite(tier, drv)
+    r.name = "dep:C06:" + r.name
+    return out + [r]
 
 
 def search(tier, hints):
